@@ -1,5 +1,7 @@
 pub mod core;
 pub mod pay;
+pub mod fmtx;
+pub mod parsers;
 pub mod c01;
 pub mod c02;
 pub mod c03;
